@@ -721,6 +721,80 @@ impl<'r> Gen<'r> {
     }
 }
 
+/// "Cost ladder": a signature arm against a signature-free arm of adjustable weight
+/// (1-4 hash preimages, optionally ending in a time lock) under every choice combinator,
+/// below a root signature so the script stays sane. Branch selection in the satisfier
+/// (cheapest vs non-malleable, has_sig bookkeeping, thresh ordering) is decided exactly
+/// where these costs cross, which random typed generation rarely hits.
+pub fn ladder(rng: &mut Rng, cx: Cx) -> Frag {
+    let form = match cx {
+        Cx::Tap => KeyForm::XOnly,
+        _ => KeyForm::Compressed,
+    };
+    let mut ids: Vec<usize> = (0..crate::world::N_KEYS).collect();
+    rng.shuffle(&mut ids);
+    let key = |i: usize| KeyRef { id: ids[i], form };
+    let bx = |x: Frag| Box::new(x);
+    let pk = |i: usize| Frag::Check(Box::new(Frag::PkK(key(i))));
+    let hash = |rng: &mut Rng, i: usize| match rng.below(4) {
+        0 => Frag::Sha256(i % crate::world::N_PRE),
+        1 => Frag::Hash256(i % crate::world::N_PRE),
+        2 => Frag::Ripemd160(i % crate::world::N_PRE),
+        _ => Frag::Hash160(i % crate::world::N_PRE),
+    };
+    // signature-free arm: and_v(v:h1, and_v(v:h2, ... last))
+    let sigless = |rng: &mut Rng| -> Frag {
+        let h = 1 + rng.below(4);
+        let mut f = match rng.below(4) {
+            0 => Frag::Older(*rng.pick(&[1u32, 2, 144])),
+            1 => Frag::After(*rng.pick(&[1u32, 2, 144])),
+            2 => Frag::True,
+            _ => hash(rng, 3),
+        };
+        for i in 0..h {
+            f = Frag::AndV(bx(Frag::Verify(bx(hash(rng, i)))), bx(f));
+        }
+        f
+    };
+    let sigarm = |rng: &mut Rng| -> Frag {
+        match rng.below(4) {
+            0 | 1 => pk(1),
+            2 if cx != Cx::Tap => Frag::Multi(1 + rng.below(2), vec![key(1), key(2)]),
+            2 => Frag::MultiA(1 + rng.below(2), vec![key(1), key(2)]),
+            _ => Frag::AndV(bx(Frag::Verify(bx(pk(1)))), bx(pk(2))),
+        }
+    };
+    // d+u versions: u:X = or_i(X,0), W versions through a:
+    let du = |x: Frag| Frag::OrI(bx(x), bx(Frag::False));
+    let choice = match rng.below(8) {
+        0 => Frag::OrD(bx(pk(1)), bx(sigless(rng))),
+        1 => Frag::OrI(bx(sigarm(rng)), bx(sigless(rng))),
+        2 => Frag::OrI(bx(sigless(rng)), bx(sigarm(rng))),
+        3 => Frag::AndOr(bx(pk(1)), bx(pk(2)), bx(sigless(rng))),
+        4 => Frag::OrB(bx(pk(1)), bx(Frag::Alt(bx(du(sigless(rng)))))),
+        5 => {
+            let n_sig = 1 + rng.below(3);
+            let mut xs = vec![pk(1)];
+            for i in 1..n_sig {
+                xs.push(Frag::Swap(bx(pk(1 + i))));
+            }
+            let n_free = 1 + rng.below(2);
+            for _ in 0..n_free {
+                xs.push(Frag::Alt(bx(du(sigless(rng)))));
+            }
+            let k = 1 + rng.below(xs.len().min(3));
+            Frag::Thresh(k, xs)
+        }
+        6 => Frag::AndV(bx(Frag::OrC(bx(pk(1)), bx(Frag::Verify(bx(sigless(rng)))))), bx(Frag::True)),
+        _ => Frag::OrD(bx(du(sigless(rng))), bx(sigarm(rng))),
+    };
+    if rng.chance(1, 5) {
+        choice
+    } else {
+        Frag::AndV(bx(Frag::Verify(bx(pk(0)))), bx(choice))
+    }
+}
+
 /// One-call helper: a fresh fragment of base type `want` in context `cx`.
 pub fn generate(rng: &mut Rng, cfg: GenCfg, want: Base) -> Frag {
     let budget = {
